@@ -75,7 +75,7 @@ def run_chunk(modname, verif_seed, tier, indices, max_viol=6):
     agg = {
         "evaluations": 0, "nontrivial": {}, "faults": Counter(), "probes": Counter(),
         "sim_time": 0.0, "digests": set(), "sigs": set(), "violations": [],
-        "samples": [], "iterations": 0, "errors": [], "nviol": 0,
+        "samples": [], "iterations": 0, "errors": [], "nviol": 0, "keys": Counter(),
     }
     n = 0
     for idx in indices:
@@ -107,7 +107,15 @@ def run_chunk(modname, verif_seed, tier, indices, max_viol=6):
                                            "outcome": jsonable(res.get("outcome"))})
                 if res["violations"]:
                     agg["nviol"] += 1
-                    if len(agg["violations"]) < max_viol:
+                    # keep at most 2 scenarios per violation key (not per chunk), so a
+                    # frequent known finding cannot crowd out a different violation
+                    keep = False
+                    for v in res["violations"]:
+                        k = v.get("key", v["rule"])
+                        if agg["keys"][k] < 2:
+                            keep = True
+                        agg["keys"][k] += 1
+                    if keep and len(agg["violations"]) < 200:
                         agg["violations"].append({"seed_index": idx, "scenario": scn,
                                                   "violations": res["violations"]})
         except Exception:
@@ -119,6 +127,7 @@ def run_chunk(modname, verif_seed, tier, indices, max_viol=6):
     agg["sigs"] = list(agg["sigs"])
     agg["faults"] = dict(agg["faults"])
     agg["probes"] = dict(agg["probes"])
+    agg["keys"] = dict(agg["keys"])
     return agg
 
 
@@ -335,7 +344,7 @@ def run_check(mod, tier, verif_seed, count=None, jobs=None):
     total = {
         "evaluations": 0, "nontrivial": {}, "faults": Counter(), "probes": Counter(),
         "sim_time": 0.0, "digests": set(), "sigs": set(), "violations": [],
-        "samples": [], "iterations": 0, "errors": [], "nviol": 0,
+        "samples": [], "iterations": 0, "errors": [], "nviol": 0, "keys": Counter(),
     }
     ctx = multiprocessing.get_context("fork")
     harness_error = None
@@ -354,6 +363,7 @@ def run_check(mod, tier, verif_seed, count=None, jobs=None):
                 total["sigs"].update(a["sigs"])
                 total["violations"].extend(a["violations"])
                 total["nviol"] += a["nviol"]
+                total["keys"].update(a["keys"])
                 total["errors"].extend(a["errors"])
                 if len(total["samples"]) < 3:
                     total["samples"].extend(a["samples"][: 3 - len(total["samples"])])
@@ -421,6 +431,7 @@ def run_check(mod, tier, verif_seed, count=None, jobs=None):
             "components": getattr(mod, "COMPONENTS", {}),
             "known_findings": sorted({k["key"] for k, _ in known_hits}),
             "runs_with_violation": total["nviol"],
+            "violation_keys": dict(sorted(total["keys"].items())),
             "exhaustive": False,
         },
         "assumptions": list(getattr(mod, "ASSUMPTIONS", [])),
